@@ -281,6 +281,24 @@ fn topologies() -> Vec<Topo> {
     t.pca(a(1), a(9)); t.pca(a(9), a(10)); t.pca(a(10), a(11)); t.pca(a(3), a(12)); t.pca(a(12), a(13)); t.pca(a(13), a(14));
     t.pca(a(11), a(4)); t.pca(a(14), a(5)); t.pla(a(11), a(14));
     t.focus = vec![(a(4), a(5)), (a(5), a(4))]; v.push(t);
+    // --- the same AS number in different ISDs (1-n and 2-n are different ASes) ---
+    // cores 1-1 and 2-1, leaves 1-2 and 2-2: 1-2 -> 1-1 -> 2-1 -> 2-2 is loop-free
+    let mut t = Topo::new("isd_same_asn_all", &[a(1), b(1)]);
+    t.cla(a(1), b(1)); t.pca(a(1), a(2)); t.pca(b(1), b(2));
+    t.focus = vec![(a(2), b(2)), (b(2), a(2)), (a(2), b(1)), (a(1), b(2))]; v.push(t);
+    // leaf 1-3 under core 1-1; core 2-3 (same number as the leaf) with leaf 2-1 (same number as the other core)
+    let mut t = Topo::new("isd_leaf_core_same_asn", &[a(1), b(3)]);
+    t.cla(a(1), b(3)); t.pca(a(1), a(3)); t.pca(b(3), b(1));
+    t.focus = vec![(a(3), b(1)), (b(1), a(3)), (a(3), b(3)), (b(1), a(1))]; v.push(t);
+    // repeated numbers inside the up segment (2-2 -> 2-4 | 1-4 ...) and inside the down segment
+    let mut t = Topo::new("isd_same_asn_chains", &[a(1), b(1)]);
+    t.cla(a(1), b(1)); t.pca(a(1), a(4)); t.pca(a(4), a(2)); t.pca(b(1), b(4)); t.pca(b(4), b(2));
+    t.focus = vec![(a(2), b(2)), (b(2), a(2)), (a(2), b(4)), (a(4), b(2))]; v.push(t);
+    // three ISDs, the core of each has AS number 1, transit through the middle ISD; peering across ISDs
+    let c3 = |n: u64| ia(3, n);
+    let mut t = Topo::new("isd3_same_asn_transit", &[a(1), b(1), c3(1)]);
+    t.cla(a(1), b(1)); t.cla(b(1), c3(1)); t.pca(a(1), a(2)); t.pca(c3(1), c3(2)); t.pca(b(1), b(2)); t.pla(a(2), b(2));
+    t.focus = vec![(a(2), c3(2)), (c3(2), a(2)), (a(2), b(2)), (b(2), c3(2))]; v.push(t);
     v.push(default_graph());
     v
 }
@@ -430,6 +448,7 @@ struct Limits { max_segs: usize, max_paths_c04: usize, max_paths_c19: usize, sou
 fn topo_query(t: &Topo, src: u64, dst: u64, variant: u64, rng: &mut Rng) -> Q {
     let (cs, ns) = beacon(t, rng);
     let (mut cores, mut ncs) = select(t, &cs, &ns, src, dst, variant == 3);
+    let bneck = systematic_mtus(&mut cores, &mut ncs, rng);
     let mut wf = true;
     let (stream, vname) = match variant {
         0 => ("c04", "plain"), 1 => ("c04", "shuffled"), 2 => ("c04", "dup+shuffled"), 3 => ("c04", "all_noncores"),
@@ -464,8 +483,82 @@ fn topo_query(t: &Topo, src: u64, dst: u64, variant: u64, rng: &mut Rng) -> Q {
         }
     }
     if variant >= 1 { rng.shuffle(&mut cores); rng.shuffle(&mut ncs); }
-    Q { stream: stream.into(), desc: format!("{}/{}", t.name, vname), src, dst, cores, ncs,
+    Q { stream: stream.into(), desc: format!("{}/{}{}", t.name, vname, bneck), src, dst, cores, ncs,
         ases: t.ases.iter().map(|a| a.0).collect(), wf, sub: None, sub_ordered: true }
+}
+
+/// Every AS MTU, every link (hop ingress) MTU and every peering-link MTU of the query is drawn
+/// independently from a pool of pairwise distinct values (consistent per AS / per link across the
+/// segments), so that the minimum is unique and falls on every kind of position (first / transit /
+/// shortcut / peering / last AS, ingress links, peering links) over the cases; in half of the
+/// queries one randomly chosen slot is additionally forced to be the unique bottleneck.
+fn systematic_mtus(cores: &mut Vec<S>, ncs: &mut Vec<S>, rng: &mut Rng) -> String {
+    let mut pool: Vec<u32> = (0..120).map(|k| 1200 + 7 * k).collect();
+    rng.shuffle(&mut pool);
+    let mut next = 0usize;
+    let mut take = |next: &mut usize| { let v = pool[*next % pool.len()]; *next += 1; v };
+    let mut as_mtu: BTreeMap<u64, u32> = BTreeMap::new();
+    let mut link_mtu: BTreeMap<(u64, u16, u64, u16), u32> = BTreeMap::new();
+    let mut slots = 0usize;
+    for s in cores.iter_mut().chain(ncs.iter_mut()) {
+        for i in 0..s.e.len() {
+            let ia_ = s.e[i].local.to_u64();
+            let m = *as_mtu.entry(ia_).or_insert_with(|| take(&mut next));
+            s.e[i].mtu = m; slots += 1;
+            if i > 0 {
+                let (pia, peg) = (s.e[i - 1].local.to_u64(), s.e[i - 1].hop_entry.hop_field.cons_egress);
+                let key = (pia, peg, ia_, s.e[i].hop_entry.hop_field.cons_ingress);
+                let m = *link_mtu.entry(key).or_insert_with(|| take(&mut next));
+                s.e[i].hop_entry.ingress_mtu = m as u16; slots += 1;
+            }
+            for p in s.e[i].peer_entries.iter_mut() {
+                let (a, b) = ((ia_, p.hop_field.cons_ingress), (p.peer.to_u64(), p.peer_interface));
+                let key = if a <= b { (a.0, a.1, b.0, b.1) } else { (b.0, b.1, a.0, a.1) };
+                let m = *link_mtu.entry(key).or_insert_with(|| take(&mut next));
+                p.peer_mtu = m as u16; slots += 1;
+            }
+        }
+    }
+    if slots == 0 || rng.chance(1, 2) { return String::new(); }
+    // force one slot (and its copies in the other segments) to be the unique bottleneck
+    let mut k = rng.below(slots as u64) as usize;
+    let mut target: Option<(u8, (u64, u16, u64, u16))> = None;
+    'f: for s in cores.iter().chain(ncs.iter()) {
+        for i in 0..s.e.len() {
+            let ia_ = s.e[i].local.to_u64();
+            if k == 0 { target = Some((0, (ia_, 0, 0, 0))); break 'f; } k -= 1;
+            if i > 0 {
+                if k == 0 { target = Some((1, (s.e[i - 1].local.to_u64(), s.e[i - 1].hop_entry.hop_field.cons_egress, ia_, s.e[i].hop_entry.hop_field.cons_ingress))); break 'f; }
+                k -= 1;
+            }
+            for p in &s.e[i].peer_entries {
+                if k == 0 {
+                    let (a, b) = ((ia_, p.hop_field.cons_ingress), (p.peer.to_u64(), p.peer_interface));
+                    target = Some((2, if a <= b { (a.0, a.1, b.0, b.1) } else { (b.0, b.1, a.0, a.1) })); break 'f;
+                }
+                k -= 1;
+            }
+        }
+    }
+    let Some((kind, key)) = target else { return String::new(); };
+    let low = 1000 + rng.below(100) as u32;
+    for s in cores.iter_mut().chain(ncs.iter_mut()) {
+        for i in 0..s.e.len() {
+            let ia_ = s.e[i].local.to_u64();
+            if kind == 0 && ia_ == key.0 { s.e[i].mtu = low; }
+            if kind == 1 && i > 0 && (s.e[i - 1].local.to_u64(), s.e[i - 1].hop_entry.hop_field.cons_egress, ia_, s.e[i].hop_entry.hop_field.cons_ingress) == key {
+                s.e[i].hop_entry.ingress_mtu = low as u16;
+            }
+            if kind == 2 {
+                for p in s.e[i].peer_entries.iter_mut() {
+                    let (a, b) = ((ia_, p.hop_field.cons_ingress), (p.peer.to_u64(), p.peer_interface));
+                    let kk = if a <= b { (a.0, a.1, b.0, b.1) } else { (b.0, b.1, a.0, a.1) };
+                    if kk == key { p.peer_mtu = low as u16; }
+                }
+            }
+        }
+    }
+    [":bneck_as", ":bneck_link", ":bneck_peerlink"][kind as usize].to_string()
 }
 
 fn all_pairs(t: &Topo) -> Vec<(u64, u64)> {
